@@ -44,6 +44,17 @@ def onRunResult (outOfAmmo startFinished : Bool) (isCtxErr : Ctx → Bool) : Lis
   if outOfAmmo then (if !startFinished then [.cancel .start] else [])
   else if !isCtxErr .run then [.reportErr] else []
 
+/-- `Engine.Run`: `for i := 0; i < len(pools); i++ { select { case res := <-runRes: if res.Err != nil { return err };
+case <-ctx.Done(): return ctx.Err() } }; return nil` -/
+def engSeq (nPools : Int) (i : Int) : List EngEv → EngRes
+  | [] => if i < nPools then { awaited := i, ret := none } else { awaited := i, ret := some .ok }
+  | ev :: rest =>
+    if i < nPools then
+      match ev with
+      | .result errNil => if !errNil then { awaited := i, ret := some .failed } else engSeq nPools (i + 1) rest
+      | .ctxDone => { awaited := i, ret := some .cancelled }
+    else { awaited := i, ret := some .ok }
+
 /-! ### one pass of `instance.Run` -/
 
 /-- the exit reason of an instance whose `Run` returned `r`; `errNonNil`: the `ctx.Err()` of the final `return ctx.Err()`
